@@ -24,13 +24,14 @@ REQUIRED = ['hist_length', 'sample_individuals', 'no_record_after_stop', 'record
             'at_most_one_event', 'event_is_last', 'times_consecutive', 'within_tmax', 'censored_outcome_zero',
             'plan_all', 'plan_none', 'plan_natural', 'plan_custom', 'plan_custom_on_record',
             'lag_first_step', 'lag_prev_step', 'lag_prev_record', 'lowmem_one', 'lowmem_eq_last_of_full',
-            'lowmem_uids', 'fit_rejects_iff', 'lag_prev_chain', 'lag_order_irrelevant']
+            'lowmem_uids', 'fit_rejects_iff', 'lag_prev_chain', 'lag_order_irrelevant', 'lag_after_out_recode',
+            'lag_running_count']
 RULE = ('person-period data sets generated here (id, t_in/t_out, binary time-varying L, L2, continuous W, exposure A, '
         'outcome Y, drop-out, lag columns, optional integer weights); nuisance models fitted by zEpid itself; every '
         'cell of plan {all, none, natural, custom rule from the Cond grammar} x covariate models {none, L, L+W '
         'continuous, L+L2 with labels against call order} x censoring model {no, yes} x lags {none, first order, '
-        'second-order chain in both listing orders} is run with random sample size 1..200, t_max 1..6 or None, recode strings from the '
-        'Assign grammar, np.random draws or pinned draws, and both memory modes with the same seed. distinct = '
+        'second-order chain in both listing orders, optionally a lag of the running count kept by out_recode} is run with random sample size 1..200, t_max 1..6 or None, recode strings from the '
+        'Assign grammar, np.random draws or pinned draws, and both memory modes with the same seed; 30% of the cases fit the reused object with another horizon/plan/sample first, 20% are compared with a fresh object; ids are ints or strings, columns int64 / int8 / int32, t_max an int / np.int64 / integral float. distinct = '
         'distinct (cell, data seed, np seed, sample, t_max); non-trivial = at least one history stops before t_max '
         'and at least one reaches it')
 ASSUMPTIONS = ['statsmodels results.predict(frame) returns one probability in [0,1] per row of the frame (measured '
@@ -42,7 +43,7 @@ ASSUMPTIONS = ['statsmodels results.predict(frame) returns one probability in [0
                'recode / treatment strings are generated from the modelled grammar only (arbitrary exec strings '
                'are not modelled)']
 
-NAMES = ['A', 'Y', 't_in', 't_out', 'uncensored', 'L', 'L2', 'W', 'A_l1', 'A_l2', 'L_l1', 'W0', 'cumA', 't_sq', 'cumL']
+NAMES = ['A', 'Y', 't_in', 't_out', 'uncensored', 'L', 'L2', 'W', 'A_l1', 'A_l2', 'L_l1', 'W0', 'cumA', 't_sq', 'cumL', 'cumA_l1']
 CID = {n: i for i, n in enumerate(NAMES)}
 BASECOLS = [n for n in NAMES if n != 'uncensored']
 
@@ -146,7 +147,7 @@ def gen_data(seed, n, T, weights):
         A_l2 = int(rng.uniform() < 0.3)
         W0 = float(np.round(rng.normal(), 3))
         w = int(rng.integers(1, 4))
-        cumA, cumL = 0, 0
+        cumA, cumL, cumA_l1 = 0, 0, 0
         for t in range(T):
             L = int(rng.uniform() < 0.35 + 0.25 * L_l1 + 0.1 * A_l1 + 0.1 * b[0])
             L2 = int(rng.uniform() < 0.4 + 0.2 * L + 0.1 * b[1])
@@ -155,13 +156,22 @@ def gen_data(seed, n, T, weights):
             Y = int(rng.uniform() < 0.10 + 0.08 * L - 0.04 * A + 0.02 * t + 0.05 * b[3])
             C = int(rng.uniform() < 0.10 + 0.05 * L)
             rows.append(dict(id=pid, t_in=t, t_out=t + 1, L=L, L2=L2, W=W, A=A, Y=Y, A_l1=A_l1, A_l2=A_l2, L_l1=L_l1,
-                             W0=W0, cumA=cumA, cumL=cumL, t_sq=t * t, wt=w))
+                             W0=W0, cumA=cumA, cumL=cumL, t_sq=t * t, wt=w, cumA_l1=cumA_l1))
             if Y or C:
                 break
             A_l2, A_l1, L_l1 = A_l1, A, L
+            cumA_l1 = cumA + A          # the count at the end of this interval (out_recode runs before the lags)
             cumA += A
             cumL += L
     df = pd.DataFrame(rows)
+    # container / dtype variance (by data seed): string ids, fixed-width integer columns
+    if int(seed) % 3 == 1:
+        df['id'] = ['p%04d' % v for v in df['id']]
+    if int(seed) % 3 == 2:
+        for c in ('L', 'L2', 'A', 'Y', 'A_l1', 'A_l2', 'L_l1'):
+            df[c] = df[c].astype(np.int8)
+        for c in ('t_in', 't_out', 'cumA', 'cumL', 'cumA_l1', 't_sq'):
+            df[c] = df[c].astype(np.int32)
     # shuffled row order and a non-default index: the class sorts by (id, t_out) itself
     df = df.sample(frac=1.0, random_state=int(seed) % 1000).reset_index(drop=True)
     df.index = df.index + 7
@@ -170,7 +180,7 @@ def gen_data(seed, n, T, weights):
 
 COVSETS = {
     'none': [],
-    'L': [dict(label=1, col='L', model='L_l1 + A_l1 + t_in', typ='binary')],
+    'L': [dict(label=1, col='L', model='L_l1 + A_l1 + t_in + cumA_l1', typ='binary')],
     'LW': [dict(label=1, col='L', model='L_l1 + A_l1 + t_in', typ='binary'),
            dict(label=2, col='W', model='L + W0 + t_in', typ='continuous')],
     # labels against call order: L2 (label 5) is added first but must be predicted after L (label 2)
@@ -180,19 +190,24 @@ COVSETS = {
 _FITTED = {}
 
 
-def fitted(spec):
-    """zEpid object with its nuisance models fitted (cached per data/model configuration)"""
+class ExternalFitFailure(Exception):
+    """the reference GLM/GLS fit itself failed (separation, singular design): a discard, never zEpid's excuse"""
+
+
+def fitted(spec, fresh=False):
+    """zEpid object with its nuisance models fitted (cached per data/model configuration; `fresh` bypasses and
+    does not touch the cache)"""
     from zepid.causal.gformula import MonteCarloGFormula
     key = (spec['data_seed'], spec['n'], spec['T'], spec['weights'], spec['covs'], spec['cens'],
            repr(spec.get('covrec')))
-    if key in _FITTED:
+    if key in _FITTED and not fresh:
         return _FITTED[key]
     if len(_FITTED) > 40:
         _FITTED.clear()
     df = gen_data(spec['data_seed'], spec['n'], spec['T'], spec['weights'])
     gf = MonteCarloGFormula(df, idvar='id', exposure='A', outcome='Y', time_in='t_in', time_out='t_out',
                             weights='wt' if spec['weights'] else None)
-    gf.exposure_model('L + A_l1 + t_in', print_results=False)
+    gf.exposure_model('L + A_l1 + t_in + cumA_l1', print_results=False)
     gf.outcome_model('A + L + A_l1 + t_in', print_results=False)
     covrec = spec.get('covrec') or {}
     for c in COVSETS[spec['covs']]:
@@ -202,8 +217,9 @@ def fitted(spec):
         gf.censoring_model('A + L + t_in', print_results=False)
     for m in [gf.exp_model, gf.out_model, gf.cens_model] + list(gf._covariate_models):
         if m is not None and not np.all(np.isfinite(np.asarray(m.params, dtype=float))):
-            raise FloatingPointError('non-finite coefficients')
-    _FITTED[key] = (gf, df)
+            raise ExternalFitFailure('non-finite coefficients')
+    if not fresh:
+        _FITTED[key] = (gf, df)
     return gf, df
 
 
@@ -292,7 +308,12 @@ def run_fit(gf, spec, low_memory, seencols):
         else:
             treatment = spec['plan']
         try:
-            gf.fit(treatment=treatment, lags=lags, sample=int(spec['sample']), t_max=spec['tmax'],
+            tm = spec['tmax']
+            if tm is not None and spec.get('tmax_type') == 'np':
+                tm = np.int64(tm)
+            elif tm is not None and spec.get('tmax_type') == 'float':
+                tm = float(tm)
+            gf.fit(treatment=treatment, lags=lags, sample=int(spec['sample']), t_max=tm,
                    in_recode=s_py(spec.get('inrec')), out_recode=s_py(spec.get('outrec')), low_memory=low_memory)
             return gf.predicted_outcomes.copy(), tap
         except Exception as e:  # noqa: BLE001  (any exception of the real code is data here)
@@ -411,16 +432,33 @@ def run_case(spec, drv):
     def K(ok, what):
         res.append(('K', bool(ok), what, None))
 
-    try:
-        gf, df = fitted(spec)
-    except Exception as e:  # noqa: BLE001
-        return dict(status='discard', why='nuisance model fit failed in statsmodels/patsy: %s' % type(e).__name__,
-                    results=res, info=info)
+    def specify(fresh=False):
+        from statsmodels.tools.sm_exceptions import PerfectSeparationError
+        try:
+            return fitted(spec, fresh=fresh)
+        except (ExternalFitFailure, PerfectSeparationError, np.linalg.LinAlgError) as e:
+            return 'discard', 'reference GLM fit failed inside statsmodels: %s' % type(e).__name__
+        except Exception as e:  # noqa: BLE001   anything else raised while specifying valid models is zEpid's
+            D(False, 'model specification raised %s on valid input: %s' % (type(e).__name__, str(e)[:200]))
+            return 'raised', None
+
+    got = specify()
+    if got[0] == 'discard':
+        return dict(status='discard', why=got[1], results=res, info=info)
+    if got[0] == 'raised':
+        return dict(status='ok', results=res, info=info)
+    gf, df = got
     n = int(spec['sample'])
     tmax = int(df['t_out'].max()) if spec['tmax'] is None else int(spec['tmax'])
     covcols = [c['col'] for c in COVSETS[spec['covs']]]
     outcols = ['A', 'Y', 't_in', 't_out'] + covcols
     seencols = [c for c in NAMES if c in df.columns or c == 'uncensored']
+    # history on the object: an earlier fit with another horizon / plan / sample must leave no trace
+    if spec.get('prefit'):
+        pre = dict(spec)
+        pre.update(spec['prefit'])
+        pre['pin'] = None
+        run_fit(gf, pre, bool(pre.get('low_memory', True)), seencols)
     full, tap = run_fit(gf, spec, False, seencols)
     low, tap2 = run_fit(gf, spec, True, seencols)
     info['h_n'] = tap.h_n + tap2.h_n
@@ -440,6 +478,15 @@ def run_case(spec, drv):
     if not info['h_ok']:
         return dict(status='discard', why='external predict/draw returned an unexpected shape or value', results=res,
                     info=info)
+    if spec.get('fresh'):
+        got = specify(fresh=True)
+        if got[0] not in ('discard', 'raised'):
+            ffull, _ = run_fit(got[0], spec, False, seencols)
+            same = (not isinstance(ffull, Exception)) and list(ffull.columns) == list(full.columns) and \
+                len(ffull) == len(full) and ffull.astype(str).equals(full.astype(str))
+            D(same, 'fit on an object with a history of earlier fits = fit on a fresh object (same specification, '
+                    'same seed)%s' % ('' if same or isinstance(ffull, Exception) else
+                                      ' [rows: reused %d, fresh %d]' % (len(full), len(ffull))))
     per, kinds, problems = transpose(tap, spec, tmax)
     per2, _, problems2 = transpose(tap2, spec, tmax)
     hooked = tap.installed and tap2.installed
@@ -563,6 +610,25 @@ def run_case(spec, drv):
         lags = [(k, v) for k, v in spec['lags']]
         base = df.sort_values(['id', 't_out']).groupby('id').head(1).set_index('id')
         ok_lag0 = ok_lag = True
+        endcache = {}
+
+        def end_of_interval(calls, si):
+            """the row at the end of an interval (after out_recode, before the lag update), rebuilt from the frame
+            of the interval's last prediction, the draws and the out_recode program"""
+            key = (id(calls), si)
+            if key not in endcache:
+                lastk = 'cens' if 'cens' in kinds else 'out'
+                frame, _, cols = calls[lastk]
+                r = dict(zip(cols, frame.tolist()))
+                yd = float(calls['out'][1])
+                ud = float(calls['cens'][1]) if 'cens' in kinds else r.get('uncensored', 1.0)
+                r['Y'] = yd if ud == 1 else 0.0
+                r['t_out'] = float(si + 1)
+                r['uncensored'] = 0.0 if si == tmax - 1 else ud
+                for dst, e in (spec.get('outrec') or []):
+                    r[dst] = e_val(e, r)
+                endcache[key] = r
+            return endcache[key]
         for u, gdf in groups.items():
             steps = per.get(u, {})
             bid = gdf['id'].iloc[0]
@@ -580,13 +646,10 @@ def run_case(spec, drv):
                                 note('lag0', 'uid %d (id %s) call %s: %s=%g, baseline %g' % (u, bid, p, v, row[v],
                                                                                          base.loc[bid, v]))
                         else:
-                            prev = steps[s - 1]['out']
-                            prow = dict(zip(prev[2], prev[0].tolist()))
-                            # value of k in interval s-1: what the outcome model of that interval saw (the output
-                            # record's own value for the exposure / covariates)
-                            if row[v] != prow[k]:
-                                msg = 'uid %d interval %d call %s: %s=%g but %s was %g in interval %d' % (
-                                    u, s, p, v, row[v], k, prow[k], s - 1)
+                            want = end_of_interval(steps[s - 1], s - 1)[k]
+                            if row[v] != want:
+                                msg = 'uid %d interval %d call %s: %s=%g but %s was %g at the end of interval %d' % (
+                                    u, s, p, v, row[v], k, want, s - 1)
                                 ok_lag = False
                                 note('lag', msg)
         D(ok_lag0, 'lag columns hold the baseline values in the first interval', key='lag0')
@@ -598,10 +661,20 @@ def run_case(spec, drv):
             >= max([i for i, x in enumerate(spec['lags']) if x[1] == 'A_l1']):
         bad = [u for u, gdf in groups.items() if gdf['A'].nunique() > 1]
         D(not bad, "rule g['A_l1'] == 1 with lag A -> A_l1: exposure constant within every history (uids %s)" % bad[:5])
+    # ---- hook-free: 'treat while never treated' = rule on the lagged running count kept by out_recode; every
+    #      history must be exposed in its first interval and never again
+    if spec['plan'] == 'custom' and spec['rule'] == TREAT_ONCE and ['cumA', 'cumA_l1'] in [list(x) for x in
+                                                                                             (spec['lags'] or [])] \
+            and [list(x) for x in (spec.get('outrec') or [])][:1] == [list(x) for x in CUM_OUTREC[:1]]:
+        bad = [u for u, gdf in groups.items() if gdf['A'].tolist() != [1] + [0] * (len(gdf) - 1)]
+        D(not bad, "rule g['cumA_l1'] == 0 with out_recode cumA += A and lag cumA -> cumA_l1: exposed in the first "
+                   "interval only (uids %s)" % bad[:5])
     # ---- low memory = last record of every history of the full output, same seed
     last = full.groupby('uid_g_zepid', sort=True).tail(1).reset_index(drop=True)
+    num = [c for c in last.columns if c != 'id']
     same = list(last.columns) == list(low.columns) and len(last) == len(low) and \
-        bool((last.to_numpy(dtype=float) == low.to_numpy(dtype=float)).all())
+        last['id'].tolist() == low['id'].tolist() and \
+        bool((last[num].to_numpy(dtype=float) == low[num].to_numpy(dtype=float)).all())
     D(same, 'low_memory output = last record of every history of the full output (same seed)')
 
     # ============================== K: model vs implementation =====================================================
@@ -655,7 +728,7 @@ def run_case(spec, drv):
 # --------------------------------------------------------------------------- generators
 def gen_atom(rng, covs):
     pool = [('L', [0, 1]), ('t_in', [0, 1, 2, 3]), ('A', [0, 1]), ('A_l1', [0, 1]), ('L_l1', [0, 1]),
-            ('cumA', [0, 1, 2]), ('W0', [-0.5, 0.0, 0.5])]
+            ('cumA', [0, 1, 2]), ('cumA_l1', [0, 1, 2]), ('W0', [-0.5, 0.0, 0.5])]
     if covs == 'LW':
         pool.append(('W', [-0.25, 0.5]))
     if covs == 'L2rev':
@@ -684,7 +757,10 @@ FIXED_RULES = [
     ['eq', ['var', 'L'], ['const', 1]],                          # treat when the simulated covariate is 1
     ['or', ['eq', ['var', 'A'], ['const', 1]], ['eq', ['var', 'A_l1'], ['const', 1]]],   # documented ITT rule
     ['ge', ['var', 't_in'], ['const', 2]],
+    ['eq', ['var', 'cumA_l1'], ['const', 0]],                    # treat while never treated (lagged running count)
 ]
+TREAT_ONCE = FIXED_RULES[4]
+CUM_OUTREC = [['cumA', ['add', ['var', 'cumA'], ['var', 'A']]]]
 LAGSETS = {
     'none': None,
     'first': [['A', 'A_l1'], ['L', 'L_l1']],
@@ -698,6 +774,10 @@ RECODES = [
     dict(inrec=[['t_sq', ['mul', ['var', 't_in'], ['var', 't_in']]]],
          outrec=[['cumA', ['add', ['var', 'cumA'], ['var', 'A']]], ['cumL', ['add', ['var', 'cumL'], ['var', 'L']]]]),
     dict(covrec={'L': [['cumL', ['add', ['var', 'cumL'], ['var', 'L']]]]}),
+    # out_recode keeps a running count that is itself lagged (the documented use of out_recode)
+    dict(outrec=CUM_OUTREC, lagx=[['cumA', 'cumA_l1']]),
+    dict(inrec=[['t_sq', ['mul', ['var', 't_in'], ['var', 't_in']]]],
+         outrec=CUM_OUTREC + [['cumL', ['add', ['var', 'cumL'], ['var', 'L']]]], lagx=[['cumA', 'cumA_l1']]),
 ]
 
 
@@ -712,10 +792,33 @@ def random_spec(rng, plan, covs, cens, lagset, tier, i):
     rc = dict(RECODES[int(rng.integers(0, len(RECODES)))])
     if 'covrec' in rc and covs == 'none':
         rc = dict()
-    spec.update(rc)
     if plan == 'custom':
         spec['rule'] = FIXED_RULES[i % len(FIXED_RULES)] if rng.uniform() < 0.4 else gen_rule(rng, covs)
+        if 'cumA_l1' in c_reads(spec['rule']) and 'lagx' not in rc:
+            rc = dict(RECODES[5])          # a rule on the lagged count needs the count to be kept and lagged
+    lagx = rc.pop('lagx', None)
+    spec.update(rc)
+    if lagx:
+        spec['lags'] = [list(x) for x in (spec['lags'] or [])] + lagx
+        spec['lagset'] = lagset + '+count'
+    spec['tmax_type'] = str(rng.choice(['int', 'int', 'np', 'float']))
+    # histories on one object: a different fit first (other horizon, plan, sample, memory mode); a fresh twin
+    if rng.uniform() < 0.3:
+        spec['prefit'] = dict(tmax=[None, 1, 2, 3, 5, 6][int(rng.integers(0, 6))], plan='all',
+                              sample=int(rng.integers(1, 60)), low_memory=bool(rng.integers(0, 2)))
+    spec['fresh'] = bool(rng.uniform() < 0.2)
     return spec
+
+
+def safe_case(spec, drv):
+    """anything the harness cannot digest is a D failure with a replay, never a tool failure"""
+    import traceback
+    try:
+        return run_case(spec, drv)
+    except Exception:  # noqa: BLE001
+        tb = traceback.format_exc().strip().splitlines()
+        return dict(status='ok', info={}, results=[('D', False, 'case could not be evaluated: ' + ' | '.join(tb[-3:]),
+                                                    None)])
 
 
 def feed(chk, spec, out):
@@ -755,12 +858,12 @@ def run(chk, drv, rng, tier):
         for _ in range(reps):
             spec = random_spec(rng, plan, covs, cens, lagset, tier, i)
             i += 1
-            feed(chk, spec, run_case(spec, drv))
+            feed(chk, spec, safe_case(spec, drv))
     # extra custom rules (the rule grammar is the largest part of the input space)
     for j in range(24 if tier == 'quick' else 300):
         covs = list(COVSETS)[j % 4]
         spec = random_spec(rng, 'custom', covs, bool(j % 2), ['none', 'first', 'chain', 'chainfwd'][j % 4], tier, j)
-        feed(chk, spec, run_case(spec, drv))
+        feed(chk, spec, safe_case(spec, drv))
     # information only (outside the documented domain t_max : int): a non-integer t_max never marks the last
     # iteration, so low_memory drops everyone who survives
     spec = random_spec(rng, 'all', 'none', False, 'none', tier, 0)
@@ -778,7 +881,7 @@ def run(chk, drv, rng, tier):
     # t_max = 0: nothing simulated, pd.concat raises; the model rejects
     spec = random_spec(rng, 'all', 'L', False, 'none', tier, 0)
     spec['tmax'] = 0
-    feed(chk, spec, run_case(spec, drv))
+    feed(chk, spec, safe_case(spec, drv))
 
 
 def replay(rec):
@@ -798,7 +901,7 @@ def replay(rec):
             if not isinstance(spec, dict) or repr(sorted(spec.items(), key=str)) in seen:
                 continue
             seen.add(repr(sorted(spec.items(), key=str)))
-            outs.append((spec, run_case(spec, drv)))
+            outs.append((spec, safe_case(spec, drv)))
     for spec, out in outs:
         print('case:', spec)
         for gate, ok, what, sig in out.get('results', []):
